@@ -162,7 +162,7 @@ def one_document(ctx, schema, holder, dump, sdl, enum_kind, label, text, variabl
     ctx.stat(stream + ":accepted")
     if label:
         ctx.stat("accepted-adversarial:" + label)
-    for k in range(2):
+    for k in range(6 if (label or "").startswith("same-key") else 2):
         c = K.Case()
         c.sdl, c.enum_kind, c.text, c.variables, c.opname = sdl, enum_kind, text, variables, opname
         c.seed, c.mode, c.features = rng.randint(0, 10 ** 6), 0, set()
@@ -280,9 +280,9 @@ def run(ctx):
 
 
 FIXED_SDL = ("type Query { a(l: [Int], x: String, o: In, i: Int): Int, b: Ob, u: U, n: Node, s: String! }\n"
-             "type Ob implements Node { id: ID, a(l: [Int]): Int, b: Ob }\n"
-             "type Other implements Node { id: ID, c: String }\n"
-             "interface Node { id: ID }\ninput In { a: Int }\nunion U = Ob | Other\n")
+             "type Ob implements Node { id: ID, t(x: Int): String, a(l: [Int]): Int, b: Ob }\n"
+             "type Other implements Node { id: ID, t(x: Int): String, c: String }\n"
+             "interface Node { id: ID, t(x: Int): String }\ninput In { a: Int }\nunion U = Ob | Other\n")
 
 FIXED = [
     ("V1-inline-unknown-type", "{ ... on Unknown { a } }", {}),
@@ -305,6 +305,15 @@ FIXED = [
     ("meta-on-non-root", "{ b { __schema { types { name } } } }", {}),
     ("same-key-object-then-abstract", "{ n { ... on Ob { k: a } ... on Node { k: id } } }", {}),
     ("same-key-abstract-then-object", "{ n { ... on Node { k: id } ... on Ob { k: a } } }", {}),
+    ("same-key-object-then-abstract-args", "{ n { ... on Ob { k: t(x: 1) } ... on Node { k: t(x: 2) } } }", {}),
+    ("same-key-abstract-then-object-args", "{ n { ... on Node { k: t(x: 2) } ... on Ob { k: t(x: 1) } } }", {}),
+    ("same-key-object-then-abstract-args-union", "{ u { ... on Ob { k: t(x: 1) } ... on Node { k: t } } }", {}),
+    ("same-key-object-then-abstract-nested", "{ n { ... on Ob { ...FO } ...FN } } fragment FO on Ob { k: id } fragment FN on Node { k: t }", {}),
+    ("same-key-abstract-then-object-nested", "{ n { ...FN ... on Ob { ...FO } } } fragment FO on Ob { k: id } fragment FN on Node { k: t }", {}),
+    ("same-key-object-then-object-exclusive", "{ n { ... on Ob { k: a } ... on Other { k: c } } }", {}),
+    ("spread-disabled-then-enabled", "{ a ...F @skip(if: true) ...F } fragment F on Query { s }", {}),
+    ("spread-disabled-then-enabled-vars", "query($x: Boolean!, $y: Boolean!) { ...F @include(if: $x) a ...F @include(if: $y) } fragment F on Query { s }", {"x": False, "y": True}),
+    ("spread-disabled-then-enabled-nested", "{ ... { ...F @skip(if: true) } b { id } ...G } fragment G on Query { ...F } fragment F on Query { s }", {}),
     ("same-key-same-field-both-orders", "{ n { ... on Node { k: id } ... on Ob { k: id } } u { ... on Ob { k: id } ... on Node { k: id } } }", {}),
 ]
 
